@@ -56,6 +56,7 @@ class Ctx:
         self.prop = prop
         self.repo = Repo(root)
         from .fields import canonicalise_fields, canonicalise_methods
+        propagate_module_literals(self.repo)
         self.field_renames = canonicalise_fields(self.repo) + canonicalise_methods(self.repo)
         self.inlined = inline_fresh_helpers(self.repo) + inline_fresh_context_managers(self.repo)
         resolve_aliases(self.repo)
@@ -1758,6 +1759,15 @@ def _expand_conditional_expressions(fn) -> bool:
                     v, awaited = v.value, True        # `await (A if c else B)`: the test is evaluated first, then one of the two is awaited
                 if isinstance(st, ast.Expr) and not awaited:
                     v = None
+                if isinstance(st, ast.Raise) and isinstance(st.exc, ast.IfExp):
+                    # `raise (A if c else B) [from X]`: the test is evaluated first, then one of the two is raised
+                    def mkr(val):
+                        c = clone(st)
+                        c.exc = val
+                        return c
+                    blk[i] = ast.copy_location(ast.If(test=st.exc.test, body=[mkr(st.exc.body)], orelse=[mkr(st.exc.orelse)]), st)
+                    changed = True
+                    continue
                 if isinstance(v, ast.IfExp) and not (isinstance(st, ast.AnnAssign) and st.value is None):
                     def mk(val):
                         c = clone(st)
@@ -1844,6 +1854,50 @@ def resolve_aliases(repo: Repo):
             for par in ast.walk(f.node):
                 for ch in ast.iter_child_nodes(par):
                     ch._parent = par
+
+
+def propagate_module_literals(repo: Repo) -> int:
+    """A private module-level name bound exactly once to a string or bytes literal (`_EOF_MARKER = "UNEXPECTED_EOF..."`) and never
+    rebound is that literal wherever a function of the module reads it: hoisting a literal into a named constant, or writing it
+    out again, is the same program.  Names the rules mention are left alone."""
+    prot = set(_protected_names())
+    n_sub = 0
+    for rel, tree in repo.non_trio_modules().items():
+        cands: dict[str, ast.Constant] = {}
+        stores: dict[str, int] = {}
+        for x in ast.walk(tree):
+            if isinstance(x, ast.Name) and isinstance(x.ctx, (ast.Store, ast.Del)):
+                stores[x.id] = stores.get(x.id, 0) + 1
+            elif isinstance(x, (ast.Global, ast.Nonlocal)):
+                for nm in x.names:
+                    stores[nm] = stores.get(nm, 0) + 2
+            elif isinstance(x, ast.arg):
+                stores[x.arg] = stores.get(x.arg, 0) + 2
+        for st in tree.body:
+            tg, v = None, None
+            if isinstance(st, ast.Assign) and len(st.targets) == 1 and isinstance(st.targets[0], ast.Name):
+                tg, v = st.targets[0].id, st.value
+            elif isinstance(st, ast.AnnAssign) and isinstance(st.target, ast.Name) and st.value is not None:
+                tg, v = st.target.id, st.value
+            if tg and tg.startswith("_") and not tg.startswith("__") and tg not in prot and stores.get(tg, 0) == 1 \
+                    and isinstance(v, ast.Constant) and isinstance(v.value, (str, bytes)):
+                cands[tg] = v
+        if not cands:
+            continue
+        for x in list(ast.walk(tree)):
+            if isinstance(x, ast.Name) and isinstance(x.ctx, ast.Load) and x.id in cands:
+                par = getattr(x, "_parent", None)
+                rep = ast.copy_location(ast.Constant(value=cands[x.id].value), x)
+                for f_, val in ast.iter_fields(par) if par is not None else []:
+                    if val is x:
+                        setattr(par, f_, rep)
+                        rep._parent = par
+                        n_sub += 1
+                    elif isinstance(val, list) and any(y is x for y in val):
+                        val[[y is x for y in val].index(True)] = rep
+                        rep._parent = par
+                        n_sub += 1
+    return n_sub
 
 
 def _canonical_partial_spawn(fn) -> bool:
